@@ -250,31 +250,50 @@ package keeper
 //@   loop L1 invariant -1 <= rangeindex && rangeindex < len(list0)
 //@   loop L1 invariant forall j int :: 0 <= j && j <= rangeindex ==> list0[j] != obj0
 
+// authDids(l, h): the AccountDid fields of the account auths that a list of pointers refers to in heap h
+//@ ghost authDids(Slice_ref, Heap_AccountAuth) Slice_Str
+//@ axiom authDids.def: forall l Slice_ref, h Heap_AccountAuth :: len(authDids(l, h)) == len(l) && (forall j int :: 0 <= j && j < len(l) ==> authDids(l, h)[j] == sel(h, l[j]).AccountDid)
+
+// covered(A, R, U): the duplicate-free list A is covered by R and U and is exactly as long as both together. Then R and U hold
+// nothing but elements of A (pigeonhole; proved in /verif/lemmas/Pigeonhole.lean, assumed here as an axiom).
+//@ ghost covered(Slice_Str, Slice_Str, Slice_Str) bool
+//@ axiom covered.def: forall A Slice_Str, R Slice_Str, U Slice_Str :: covered(A, R, U) <==> (len(A) == len(R) + len(U)
+//@       && (forall i int, j int :: 0 <= i && i < j && j < len(A) ==> A[i] != A[j]) && (forall i int :: 0 <= i && i < len(A) ==> contains(R, A[i]) || contains(U, A[i])))
+//@ axiom pigeon.cover: forall A Slice_Str, R Slice_Str, U Slice_Str :: covered(A, R, U) ==> (forall q int :: 0 <= q && q < len(R) ==> contains(A, R[q]))
+
 //@ func inUpdateList(did, list) (res)
 //@   requires forall j int :: 0 <= j && j < len(list) ==> list[j] != nil
 //@   modifies nothing
-//@   ensures [C17.inupdatelist] res ==> exists j int :: 0 <= j && j < len(list) && list[j].AccountDid == did
+//@   ensures [C17.inupdatelist] res <==> contains(authDids(list, heap(AccountAuth)), did)
 //@   loop L1 invariant -1 <= rangeindex && rangeindex < len(list0)
+//@   loop L1 invariant forall j int :: 0 <= j && j <= rangeindex ==> list0[j].AccountDid != did0
 
 // Update: key rotation / unbinding by an account bound to the DID; the account that is the DID's payment address on this chain
 // cannot be unbound
 //@ func (msgServer) Update(goCtx, msg) (resp, err)
 //@   requires msg != nil
 //@   requires forall j int :: 0 <= j && j < len(msg.UpdateAccountAuth) ==> msg.UpdateAccountAuth[j] != nil
+//@   requires [C17.inv.nodup] forall d string, i int, j int :: has(AccountList, d) && 0 <= i && i < j && j < len(AccountList[d].AccountDids) ==> AccountList[d].AccountDids[i] != AccountList[d].AccountDids[j]
+//@   requires [C17.inv.listed] forall d string, j int :: has(AccountList, d) && 0 <= j && j < len(AccountList[d].AccountDids) && has(AccountId, AccountList[d].AccountDids[j])
+//@       && has(Did, AccountId[AccountList[d].AccountDids[j]].AccountId) ==> Did[AccountId[AccountList[d].AccountDids[j]].AccountId].Did == d
 //@   modifies *
+//@   ensures [C17.update.foreign] err == nil ==> forall c string :: old(has(Did, c)) && old(Did[c].Did) != msg.Did ==> has(Did, c) && Did[c] == old(Did[c])
+//@   at GetPastSeeds assert [C17.update.covered] covered(accountList.AccountDids, removeList, authDids(updateList, heap(AccountAuth)))
 //@   ensures [C17.update.creator] err == nil ==> old(has(Did, "cosmos:" + ChainID + ":" + msg.Creator)) && old(Did["cosmos:" + ChainID + ":" + msg.Creator].Did) == msg.Did
 //@       && u64(msg.Timestamp + 900) >= u64(unixOf(BlockTime))
 //@   ensures [C17.update.payaddr] err == nil ==> old(has(PaymentAddress, msg.Did)) && has(PaymentAddress, msg.Did) && PaymentAddress[msg.Did] == old(PaymentAddress[msg.Did])
 //@   ensures [C17.update.unbound] err == nil ==> forall q int :: 0 <= q && q < len(msg.RemoveAccountDid) && old(has(AccountId, msg.RemoveAccountDid[q])) ==>
 //@       !has(Did, old(AccountId[msg.RemoveAccountDid[q]].AccountId))
 //@   at RemoveDid assert [C17.update.keeppay] !(caipNetwork(accountId) == "cosmos" && caipChain(accountId) == ChainID && caipAddress(accountId) == PaymentAddress[msg.Did].Address)
-//@   loop L1 invariant -1 <= rangeindex
+//@   loop L1 invariant -1 <= rangeindex && rangeindex < len(accountList.AccountDids)
+//@   loop L1 invariant [C17.update.foreign] forall j int :: 0 <= j && j <= rangeindex ==> contains(removeList, accountList.AccountDids[j]) || contains(authDids(updateList, heap(AccountAuth)), accountList.AccountDids[j])
 //@   loop L2 invariant -1 <= rangeindex && rangeindex < len(removeList)
 //@   loop L2 invariant forall q int :: 0 <= q && q < len(removeAccId) ==>
 //@       !(caipNetwork(removeAccId[q]) == "cosmos" && caipChain(removeAccId[q]) == ChainID && caipAddress(removeAccId[q]) == payAddr.Address)
 //@   loop L2 invariant [C17.update.unbound] len(removeAccId) == rangeindex + 1 && (forall q int :: 0 <= q && q <= rangeindex ==> has(AccountId, removeList[q]) && removeAccId[q] == AccountId[removeList[q]].AccountId)
 //@   loop L3 invariant -1 <= rangeindex && rangeindex < len(removeAccId)
 //@   loop L3 invariant [C17.update.unbound] forall q int :: 0 <= q && q <= rangeindex ==> !has(Did, removeAccId[q])
+//@   loop L3 invariant [C17.update.foreign] forall c string :: old(has(Did, c)) && old(Did[c].Did) != msg0.Did ==> has(Did, c) && Did[c] == old(Did[c])
 //@   loop L3 invariant [C17.update.unbound] forall c string :: has(Did, c) ==> entry(has(Did, c))
 //@   loop L3 invariant [C17.update.unbound] forall c string :: AccountId[c] == old(AccountId[c]) && (has(AccountId, c) <==> old(has(AccountId, c)))
 //@   loop L3 invariant PaymentAddress[msg0.Did] == old(PaymentAddress[msg0.Did]) && has(PaymentAddress, msg0.Did)
